@@ -124,7 +124,7 @@ def _check_case(case) -> None:
         elif g in ("cnot", "cphase"):
             cls = {"cnot": vanilla.CnotInstruction, "cphase": vanilla.CphaseInstruction}[g]
             a, b = case["ids"]
-            out = transpile([_set(_Q(0), a), _set(_Q(1), b), cls(reg0=_Q(0), reg1=_Q(1))])
+            out = transpile([_set(_Q(0), a), _set(_Q(1), b), cls(reg0=_Q(0), reg1=_Q(1))], debug=bool(case.get("debug")))
             U = sequence_unitary(out, 4)
             want = qm.embed(qm.CNOT if g == "cnot" else qm.CZ, [a, b], 4)
         elif g == "mov":
@@ -261,6 +261,7 @@ def fixed_cases() -> List[Dict[str, Any]]:
     for g in ("cnot", "cphase"):
         for a, b in itertools.permutations(range(4), 2):
             cases.append({"gate": g, "ids": [a, b]})
+            cases.append({"gate": g, "ids": [a, b], "debug": True})
     for k in (1, 2, 3):
         cases.append({"gate": "mov", "ids": [0, k]})
         cases.append({"gate": "mov", "ids": [k, 0]})
@@ -343,7 +344,7 @@ def st_sequence(draw):
             gates.append([draw(st.sampled_from(sorted(qm.NAMED))), [draw(st.integers(0, nq - 1))], [draw(st.sampled_from(regs))]])
         else:
             gates.append(["rot_" + draw(st.sampled_from("xyz")), [draw(st.integers(0, nq - 1))], [draw(st.sampled_from(regs))], draw(st.integers(0, 31)), draw(st.integers(0, 4))])
-    return {"gate": "sequence", "nq": nq, "gates": gates}
+    return {"gate": "sequence", "nq": nq, "gates": gates, "persist": draw(st.booleans()), "debug": draw(st.integers(0, 3)) == 0}
 
 
 def check_sequence(case) -> None:
@@ -355,10 +356,14 @@ def check_sequence(case) -> None:
     want = np.eye(2**nq, dtype=complex)
     cls1 = {"x": vanilla.GateXInstruction, "y": vanilla.GateYInstruction, "z": vanilla.GateZInstruction, "h": vanilla.GateHInstruction,
             "k": vanilla.GateKInstruction, "s": vanilla.GateSInstruction, "t": vanilla.GateTInstruction}
+    holds: Dict[int, int] = {}
     for gte in case["gates"]:
         name, ids, regs = gte[0], gte[1], gte[2]
         for r, q in zip(regs, ids):
-            instrs.append(_set(_Q(r), q))
+            # SDK idiom sets the register before every gate; with "persist" a register that already holds the id is reused
+            if not (case.get("persist") and holds.get(r) == q):
+                instrs.append(_set(_Q(r), q))
+            holds[r] = q
         if name in ("cnot", "cphase"):
             instrs.append((vanilla.CnotInstruction if name == "cnot" else vanilla.CphaseInstruction)(reg0=_Q(regs[0]), reg1=_Q(regs[1])))
             want = qm.embed(qm.CNOT if name == "cnot" else qm.CZ, ids, nq) @ want
@@ -369,7 +374,7 @@ def check_sequence(case) -> None:
         else:
             instrs.append(cls1[name](reg=_Q(regs[0])))
             want = qm.embed(qm.NAMED[name], ids, nq) @ want
-    out = transpile(instrs)
+    out = transpile(instrs, debug=bool(case.get("debug")))
     try:
         U = sequence_unitary(out, nq)
     except Failure as f:
